@@ -1146,6 +1146,62 @@ fn bigiter(tier: Tier, shard: usize, n: usize) -> Report {
 				}
 				drop(b);
 			}
+			// an iterator is ONE snapshot, also across its internal pages: after `consumed` items another thread commits
+			// a batch that changes the first key, deletes one near the end, changes the last and adds one beyond it
+			for consumed in [0usize, 1, 9_999, 10_000, 10_001] {
+				if consumed >= total as usize {
+					continue;
+				}
+				let raw = |k: &[u8], v: &[u8]| Ok((k.to_vec(), v.to_vec()));
+				match store.iter(space, raw) {
+					Err(e) => {
+						rep.violation("bigiter:Store::iter:error", format!("{:?}", e), case.clone());
+						ok = false;
+					}
+					Ok(mut it) => {
+						let mut seen: Vec<(Vec<u8>, Vec<u8>)> = vec![];
+						for _ in 0..consumed {
+							if let Some(Ok(x)) = it.next() {
+								seen.push(x);
+							}
+						}
+						let (st, sp) = (&store, space);
+						std::thread::scope(|s| {
+							s.spawn(move || {
+								uni::init_thread();
+								let mut b = st.batch().expect("batch");
+								b.put_ser(sp, &0u32.to_be_bytes(), &val(0xee)).expect("put");
+								b.delete(sp, &(total - 2).to_be_bytes()).expect("delete");
+								b.put_ser(sp, &(total - 1).to_be_bytes(), &val(0xee)).expect("put");
+								b.put_ser(sp, &(total + 7).to_be_bytes(), &val(0xee)).expect("put");
+								b.commit().expect("commit");
+							});
+						});
+						seen.extend(it.take(cap).filter_map(|x| x.ok()));
+						let want: Vec<(Vec<u8>, Vec<u8>)> = (0..total).map(|j| (j.to_be_bytes().to_vec(), grin_core::ser::ser_vec(&val((j % 251) as u8), grin_core::ser::ProtocolVersion::local()).expect("ser"))).collect();
+						rep.evaluations += 1;
+						rep.distinct += 1;
+						if seen != want {
+							let first = seen.iter().zip(want.iter()).position(|(a, b)| a != b);
+							rep.violation(
+								"bigiter:Store::iter:not-one-snapshot",
+								format!("an iterator over {} keys (key space {:?}) that had returned {} items when another thread committed a batch (first key changed, key {} deleted, last key changed, key {} added) then returned {} items in all; first difference from its snapshot at index {:?}", total, space, consumed, total - 2, total + 7, seen.len(), first),
+								json!({"part": "bigiter", "keys": total, "key_space": space, "consumed_before_commit": consumed}),
+							);
+							ok = false;
+						} else {
+							rep.outcome(&format!("bigiter:snapshot-held:commit-after-{}", consumed));
+						}
+					}
+				}
+				// put the store back as it was
+				let mut b = store.batch().expect("batch");
+				b.put_ser(space, &0u32.to_be_bytes(), &val(0)).expect("put");
+				b.put_ser(space, &(total - 2).to_be_bytes(), &val(((total - 2) % 251) as u8)).expect("put");
+				b.put_ser(space, &(total - 1).to_be_bytes(), &val(((total - 1) % 251) as u8)).expect("put");
+				b.delete(space, &(total + 7).to_be_bytes()).expect("delete");
+				b.commit().expect("commit");
+			}
 			rep.evaluations += 2;
 			rep.distinct += 2;
 			rep.outcome(&format!("bigiter:{}-pages:{}", (total + 9_999) / 10_000, if ok { "exact" } else { "WRONG" }));
